@@ -13,6 +13,7 @@ import (
 	"verif/core"
 	_ "verif/props/c01"
 	_ "verif/props/c10"
+	_ "verif/props/c11"
 	_ "verif/props/c14"
 	_ "verif/props/c24"
 )
